@@ -29,7 +29,9 @@ def parentFree (r : RuleSpec) : Bool :=
   (filtersOf r).all fun p => !p.isSub || (filtersOf r).all fun f => !f.mem p.id
 
 /-- for the `anything` aliases: a subject that lies strictly below another subject lies strictly below a NAMED subject
-    (so what `_convert_aliases` removes is covered by a subject given by name) -/
+    (so what `_convert_aliases` removed BEFORE the repair of F-C12a was covered by a subject given by name; since the
+    repair `_convert_aliases` only removes such subjects and this condition is no longer needed by the oracle theorems,
+    see `verdict_spec_parentFree` in Props/C01.lean — it is kept because `admissible` is part of published statements) -/
 def dedupSafe (r : RuleSpec) : Bool :=
   !r.anything || r.subjects.all fun m =>
     !(r.subjects.any fun o => sdesc o.id m.id) || r.subjects.any fun o => !o.isSub && sdesc o.id m.id
@@ -37,9 +39,10 @@ def dedupSafe (r : RuleSpec) : Bool :=
 /-- the domain of the general oracle theorems -/
 def admissible (r : RuleSpec) : Bool := parentFree r && dedupSafe r
 
-/-- `_get_modules_to_check_without_parent_and_submodule_combinations` on the specification's vocabulary: a subject is
-    kept iff its identifier is not a strict descendant of another subject's identifier -/
-def keepSubject (S : List SFilter) (m : SFilter) : Bool := !(S.any fun o => sdesc o.id m.id)
+/-- `_get_modules_to_check_without_parent_and_submodule_combinations` on the specification's vocabulary (after the
+    repair of F-C12a): a subject is kept iff its identifier is not a strict descendant of the identifier of a subject
+    GIVEN BY NAME (`sub modules of X` does not contain `X`, so it no longer covers another subject) -/
+def keepSubject (S : List SFilter) (m : SFilter) : Bool := !(S.any fun o => !o.isSub && sdesc o.id m.id)
 
 def keptSubjects (S : List SFilter) : List SFilter := S.filter (keepSubject S)
 
